@@ -248,7 +248,7 @@ example : resolve appStates (.name "nosuch") = .error .valueError ∧
 example : resolve appSignals (.name "sync0") = .ok 4 ∧ signalTypes.lookup 4 = some 0 := ⟨rfl, rfl⟩
 
 /-- one chip (0, 0), all cores idle except core 5 waiting under app id 31 -/
-def mcS : MCfg := { chips := [(0, 0)], missed := fun _ _ _ => false, sdramSys := 1610612736, vcpuBase := 3842011136 }
+def mcS : MCfg := { chips := [(0, 0)], missed := fun _ _ _ => false, sdramSys := 1610612736, vcpuBase := fun _ _ => 3842011136 }
 def initS : Sim :=
   { m := { core := fun x y p => if x = 0 ∧ y = 0 ∧ p = 5 then ⟨stWait, 31, [9]⟩ else ⟨stIdle, 0, []⟩,
            rx := { idx := 0, pid := 0, nBlocks := 0, got := 0, next := 0, regs := [], data := [], ok := false },
